@@ -6,7 +6,7 @@ import ast
 
 from ..core import Func, norm, parents_map, walk_local
 from ..dataflow import Canon
-from ..sites import guard_chain
+from ..sites import guard_chain, normal_polarity
 
 _CACHE: dict[str, Canon] = {}
 _PM: dict[str, dict] = {}
@@ -35,9 +35,25 @@ def stmt_of(f: Func, node: ast.AST) -> ast.AST:
 
 
 def cguards(f: Func, node: ast.AST) -> list[tuple[str, bool]]:
-    """Guard chain of `node` with canonical (local-free) texts."""
+    """Guard chain of `node` with canonical (local-free) texts, in the canonical orientation of sites.normal_polarity
+    (no leading `not`, no `is not` / `!=` / `not in`: those are written positively with the opposite polarity)."""
     c = canon(f)
-    return [(c.text(t), pol) for t, pol in guard_chain(f, stmt_of(f, node), pmap(f))]
+    out = []
+    for t, pol in guard_chain(f, stmt_of(f, node), pmap(f)):
+        ct, cp = normal_polarity(c.node(t), pol)
+        out.append((" ".join(ast.unparse(ct).split()), cp))
+    return out
+
+
+def cguards_any(f: Func, node: ast.AST) -> list[tuple[str, bool]]:
+    """Every equivalent spelling of every guard (for `any(...)`-style questions written in whichever orientation reads best)."""
+    from ..sites import equivalent_forms
+
+    c = canon(f)
+    out: list[tuple[str, bool]] = []
+    for t, pol in guard_chain(f, stmt_of(f, node), pmap(f)):
+        out += equivalent_forms(c.node(t), pol)
+    return out
 
 
 def attr_stores(f: Func, base: str | None = None) -> dict[str, list[str]]:
